@@ -7,6 +7,7 @@ import (
 	"fmt"
 	"io"
 	"log"
+	"strings"
 	"testing"
 	"time"
 
@@ -31,6 +32,38 @@ type Cred struct {
 	Forged   int    `json:"forged"` // 0: no __qi_auth_state entry; else the forged state value
 	ForgeInt bool   `json:"forge_int"`
 	Extra    int    `json:"extra"`
+	// Near: which near miss the kind "near" stands for (nearMiss)
+	Near int `json:"near,omitempty"`
+}
+
+// nearMiss alters an accepted credential so little that a lenient comparison
+// (trimmed, case folded, cut at a NUL, by prefix) would still take it.
+func nearMiss(s string, how int) string {
+	switch how % 12 {
+	case 0:
+		return s + " "
+	case 1:
+		return " " + s
+	case 2:
+		return s + "\n"
+	case 3:
+		return "\t" + s
+	case 4:
+		return s + "\r\n"
+	case 5:
+		return s + "\x00"
+	case 6:
+		return strings.ToUpper(s)
+	case 7:
+		return s + "\x00x"
+	case 8:
+		return s + s
+	case 9:
+		return " " + s + " "
+	case 10:
+		return s[:len(s)-1]
+	}
+	return strings.ToUpper(s[:1]) + s[1:]
 }
 
 // Op is one step of the script.
@@ -56,8 +89,9 @@ type Case struct {
 
 func genCred(t *rapid.T) Cred {
 	return Cred{
-		User:     rapid.SampledFrom([]string{"right", "right", "wrong", "absent", "int", "other", "raw-right", "bytes-right"}).Draw(t, "user"),
-		Token:    rapid.SampledFrom([]string{"right", "right", "wrong", "absent", "int", "raw-right", "bytes-right"}).Draw(t, "token"),
+		User:     rapid.SampledFrom([]string{"right", "right", "right", "wrong", "absent", "int", "other", "raw-right", "bytes-right", "near"}).Draw(t, "user"),
+		Token:    rapid.SampledFrom([]string{"right", "right", "right", "wrong", "absent", "int", "raw-right", "bytes-right", "near"}).Draw(t, "token"),
+		Near:     rapid.IntRange(0, 11).Draw(t, "near"),
 		Forged:   rapid.SampledFrom([]int{0, 0, 3, 3, 2, 1}).Draw(t, "forged"),
 		ForgeInt: rapid.Bool().Draw(t, "forgeint"),
 		Extra:    rapid.SampledFrom([]int{0, 0, 1, 5, 40}).Draw(t, "extra"),
@@ -126,6 +160,9 @@ func capmap(c Cred, conn int) (payload []byte, user, token string, typed bool) {
 	case "shifted":
 		user = userOf(conn) + passOf(conn)[:1]
 		entries["auth_user"] = netkit.Str(user)
+	case "near":
+		user = nearMiss(userOf(conn), c.Near)
+		entries["auth_user"] = netkit.Str(user)
 	case "empty":
 		user = ""
 		entries["auth_user"] = netkit.Str(user)
@@ -146,6 +183,9 @@ func capmap(c Cred, conn int) (payload []byte, user, token string, typed bool) {
 		entries["auth_token"] = netkit.Str(token)
 	case "shifted":
 		token = passOf(conn)[1:]
+		entries["auth_token"] = netkit.Str(token)
+	case "near":
+		token = nearMiss(passOf(conn), c.Near)
 		entries["auth_token"] = netkit.Str(token)
 	case "both":
 		token = userOf(conn) + passOf(conn)
